@@ -202,7 +202,7 @@ different keys.  Then `recoverImage img` returns `.ok`, the only device writes a
 table is the newest-wins fold over exactly the records of `d0` outside the journalled blocks. -/
 theorem recover_crashed_device_journalled (img0 img : Image) (size : Nat) (o : Opts) (info : Gen → RecMeta) (d0 : Disk) (L : List Rec)
     (md : Meta) (js : JournalState) (co : List (Nat × Nat))
-    (hro : o.readOnly = false) (httl : o.ttlOn = false)
+    (hro : o.readOnly = false)
     (hsize : validDeviceSize size = true) (himg : img.size * BSZ = size) (hnz : imageAllZero img = false)
     (hsig : slice (selectMeta (blockAt img FEOX_METADATA_BLOCK) (blockAt img FEOX_METADATA_BACKUP_BLOCK)) 0 FEOX_SIGNATURE_SIZE = FEOX_SIGNATURE)
     (hmd : Meta.decode (selectMeta (blockAt img FEOX_METADATA_BLOCK) (blockAt img FEOX_METADATA_BACKUP_BLOCK)) = some md)
@@ -216,19 +216,21 @@ theorem recover_crashed_device_journalled (img0 img : Image) (size : Nat) (o : O
       rd (slice (blockAt img0 p) 18 1) = RETIREMENT_COMPLETE ∧ (r > 1 → tailsComplete img0 p r = true))
     (hspan : ∀ p r, FEOX_DATA_START_BLOCK ≤ p → p < size / BSZ → ¬ inExt js.extents p → d0 p = .mark r →
       ∀ q, p ≤ q → q < p + r → ¬ inExt js.extents q)
-    (hnd : ((filterRuns L (co.map toRun)).map (fun r => (info r.2.1).key)).Nodup) :
+    (hnd : ((filterRuns L (co.map toRun)).map (fun r => (info r.2.1).key)).Nodup)
+    (hexp : o.ttlOn = true → ∀ l ∈ (filterRuns L (co.map toRun)).foldl (fun lv r => absorbLive lv (liveOf info r)) [],
+      (decide (l.expiry > 0) && decide (o.now > l.expiry)) = false) :
     ∃ r io1, (recoverImage img size o).result = .ok r ∧ (recoverImage img size o).io = io1 ∧ r.image = applyIo img io1 ∧
       replayIo ⟨js.generation, js.slot⟩ js.extents = .ok (io1, JPos.next ⟨js.generation, js.slot⟩) ∧
       r.version = md.version ∧
       r.live = (filterRuns L (co.map toRun)).foldl (fun lv r => absorbLive lv (liveOf info r)) [] := by
   obtain ⟨hruns, hdisj, hcov⟩ := coalesceExtents_spec L FEOX_DATA_START_BLOCK (size / BSZ) js.extents co hco hes
   obtain ⟨io1, hio⟩ := replayIo_ok ⟨js.generation, js.slot⟩ js.extents co hne hco
-  obtain ⟨r, h1, h2, h3, h4, h5⟩ := recover_crashed_device img0 img size o info d0 L md js co io1 _ hro httl hsize himg hnz hsig hmd hjs hne hco hio
+  obtain ⟨r, h1, h2, h3, h4, h5⟩ := recover_crashed_device img0 img size o info d0 L md js co io1 _ hro hsize himg hnz hsig hmd hjs hne hco hio
     hrep ht htot0 hruns hdisj
     (fun q hq hout => hagree q hq (fun h => hout ((hcov q).mpr h)))
     (fun p r a b hout => hclean0 p r a b (fun h => hout ((hcov p).mpr h)))
     (fun p r a b hout hl q c d hin => hspan p r a b (fun h => hout ((hcov p).mpr h)) hl q c d ((hcov q).mp hin))
-    hnd
+    hnd hexp
   exact ⟨r, io1, h1, h2, h3, hio, h4, h5⟩
 
 end Feox.Fmt
